@@ -132,6 +132,7 @@ type S struct {
 	Names   []string
 	DeclTy  *Ty // explicit type in var declarations
 	VarForm bool
+	Const   bool // package-level constant declaration (const name = expr)
 	Exprs   []*E
 	Lhs     []*E
 	Op      string
@@ -431,6 +432,9 @@ func (p *printer) simple(s *S) string {
 		var rs []string
 		for _, e := range s.Exprs {
 			rs = append(rs, p.expr(e))
+		}
+		if s.Const {
+			return "const " + strings.Join(s.Names, ", ") + " = " + strings.Join(rs, ", ")
 		}
 		if s.VarForm || s.Global {
 			t := ""
@@ -849,6 +853,9 @@ func (prog *Prog) Source(goMode bool, choiceVectors [][]int) string {
 		// every run starts from freshly initialised package-level variables (as a fresh VM does)
 		p.w("func resetGlobals() {\n")
 		for _, g := range prog.Globals {
+			if g.Const {
+				continue
+			}
 			if g.K == "declzero" {
 				p.w("\t{\n\t\tvar z " + g.DeclTy.Src(true) + "\n\t\t" + g.Names[0] + " = z\n\t}\n")
 			} else {
